@@ -148,6 +148,14 @@ var Layouts = []Layout{
 	{Parts: true, Name: "call-literal", Pre: "\t@", Post: "", Toks: []string{`card`, `{`, `Title: "a"`, `}`}},
 	{Parts: true, Name: "call-method", Pre: "\t@", Post: "", Toks: []string{`card{Title: "a"}`, `.`, `View`, `(`, `)`}},
 	{Name: "legacy-method", Pre: "\t{!", Post: "}", Toks: []string{`card{Title: s}`, `.`, `View`, `(`, `)`}},
+	// raw string literals that span lines, after strings / runes / comments that hold a backtick
+	{Name: "call-args-raw", Pre: "\t@c3(", Post: ")", Toks: []string{`"a"`, `,`, "`l1\nl2`"}},
+	{Name: "call-args-tick-raw", Pre: "\t@c3(", Post: ")", Toks: []string{"\"t`\"", `,`, "`l1\n\tl2`", `,`}},
+	{Name: "call-args-rune-raw", Pre: "\t@c3(", Post: ")", Toks: []string{"'`'", `,`, "`l1\nl2`"}},
+	{Name: "call-args-raw-raw", Pre: "\t@c3(", Post: ") {\n\t\tx\n\t}", Toks: []string{"`r`", `,`, "`l1\nl2`"}},
+	{Name: "attr-tick-raw", Pre: "\t<div title={", Post: "}>x</div>", Toks: []string{`up(`, "\"t`\"", `,`, "`l1\nl2`", `)`}},
+	{Name: "text-tick-raw", Pre: "\t{", Post: "}", Toks: []string{`up(`, "\"t`\"", `,`, "`l1\n  l2`", `)`}},
+	{Name: "raw-go-tick-raw", Pre: "\t{{", Post: "}}\n\t{ v }", Toks: []string{`v`, `:=`, `up(`, "\"t`\"", `,`, "`l1\nl2`", `)`}},
 	{Name: "raw-go", Pre: "\t{{", Post: "}}\n\t{ v }", Toks: []string{`v`, `:=`, `s`}},
 	{Name: "raw-go-two", Pre: "\t{{", Post: "}}\n\t{ v }", Toks: []string{`v`, `:=`, `up(`, `s`, `)`, `;`, `_ = v`}},
 	{Name: "if", Pre: "\tif ", Post: "{\n\t\tyes\n\t}", Toks: []string{`b`, `&&`, `len(xs) > 0`}},
@@ -192,7 +200,7 @@ var Layouts = []Layout{
 	{Name: "receiver", Top: true, Pre: "templ (", Post: ") M() {\n\t<i></i>\n}\n", Toks: []string{`r`, `recv`}},
 }
 
-const layoutHeader = "func up(a string, more ...string) string {\n\treturn a\n}\n\ntype recv struct{}\n\ntempl c2(a string, b bool) {\n\t<i>{ a }{ children... }</i>\n}\n\n"
+const layoutHeader = "func up(a string, more ...string) string {\n\treturn a\n}\n\ntype recv struct{}\n\ntempl c2(a string, b bool) {\n\t<i>{ a }{ children... }</i>\n}\n\ntempl c3(a any, b string) {\n\t<i>{ b }{ children... }</i>\n}\n\n"
 
 // QuickGaps / ThoroughGaps are the gap alphabets. Gaps between attributes and parameters that must be
 // whitespace are simply rejected by the parser when spelled "".
